@@ -47,6 +47,15 @@ def handleGuard (l : Line) : List Verdict :=
     pure (verdictsOf diffs viol)
   r.getD [Verdict.bad "guard"]
 
+/-- responses an SSO proxy generates itself under /oauth2 -/
+def handleProxyOwn (l : Line) : List Verdict :=
+  let r : Option (List Verdict) := do
+    let ep ← l.str? "ep"
+    let status ← l.nat? "status"
+    let nocache ← l.bool? "nocache"
+    pure (verdictsOf [] (if !nocache then [("C15.cacheable", s!"SSO proxy: {ep} answered {status} without no-store / no-cache")] else []))
+  r.getD [Verdict.bad "proxyown"]
+
 def handleErrPage (l : Line) : List Verdict :=
   let r : Option (List Verdict) := do
     let bad ← l.str? "bad"
